@@ -11,7 +11,7 @@ static int c01_main(int argc,char **argv){
   while((line=readline_(stdin))){
     int n=split(line,tok,8);
     if(n==0){ free(line); continue; }
-    if(!strcmp(tok[0],"case")){ printf("== case %s\n",n>1?tok[1]:"?"); fflush(stdout); c1_clear(); }
+    if(!strcmp(tok[0],"case")){ printf("== case %s\n",n>1?tok[1]:"?"); fflush(stdout); case_watchdog(); c1_clear(); }
     else if(!strcmp(tok[0],"new")){ c1_clear(); vorbis_info_init(&c1vi); vorbis_comment_init(&c1vc); c1_have=1; c1_seq=3; }
     else if(!strcmp(tok[0],"hdr")&&n>=3&&c1_have){
       bytes_t b=unhex(tok[2]); ogg_packet op; int rc; memset(&op,0,sizeof op); op.packet=b.p; op.bytes=b.n; op.b_o_s=atoi(tok[1]);
